@@ -288,8 +288,9 @@ pub fn c17(o: &Oracle, _thorough: bool, _seed: u64, rep: &Report) {
                 advise(rep, ev.clone(), json!({"connector": true}), "pocket pair no longer counted as a connector (the code's definition)");
             }
             // invariance under suit shifting
-            let t = Two::new(a.w, b.w);
-            let sh = guarded(|| t.shift_suit().chen_formula() as i64);
+            // the shifted cards are taken from the specification (shifting itself is C08's business)
+            let t = Two::new(a.shift, b.shift);
+            let sh = guarded(|| t.chen_formula() as i64);
             if sh != Ok(score as i64) {
                 viol(rep, json!({"op":"chen","a":hilo(a.shift),"b":hilo(b.shift)}), json!({"score": score}), "score changes under suit shifting");
             }
